@@ -55,9 +55,13 @@ Sizes ==                                    \* [0] + extras*[each+1] + (nchunks-
            small == [i \in 1..(c.nchunks - m.extras) |-> m.each]
        IN m' = [sizes |-> <<0>> \o (IF SizesFirst THEN big \o small ELSE small \o big)]
     /\ phase' = "sizes" /\ UNCHANGED c
+RECURSIVE RunningSums(_)
+RunningSums(s) == IF s = <<>> THEN <<>>
+                  ELSE LET p == RunningSums(SubSeq(s, 1, Len(s) - 1))
+                       IN Append(p, (IF p = <<>> THEN 0 ELSE p[Len(p)]) + s[Len(s)])
 Cumsum ==                                   \* div_points = cumsum(section_sizes)
     /\ phase = "sizes"
-    /\ m' = [div |-> [i \in 1..Len(m.sizes) |-> VSum(SubSeq(m.sizes, 1, i))]]
+    /\ m' = [div |-> RunningSums(m.sizes)]
     /\ phase' = "cumsum" /\ UNCHANGED c
 Fill ==                                     \* subs['start'][i] = div[i]; subs['end'][i] = div[i+1]
     /\ phase = "cumsum"
@@ -101,8 +105,9 @@ RefAccepted ==
     /\ phase = "sdone" => m = SplitRef(c)
 
 \* the statement determines isplit's answer: among all division-point vectors that
-\* move one boundary of the reference by one, none is accepted (checked on a smaller space)
-RefUnique == (phase = "icase" /\ c.nchunks >= 2) =>
+\* move one boundary of the reference by one, none is accepted (checked for num <= 40,
+\* nchunks <= 8: the check is cubic in nchunks)
+RefUnique == (phase = "icase" /\ c.nchunks >= 2 /\ c.nchunks <= 8 /\ c.num <= 40) =>
     LET r == IsplitRef(c) IN
     \A k \in 1..(c.nchunks - 1) : \A d \in {-1, 1} :
         ~IsplitAccept(c, [r EXCEPT !.ends[k] = @ + d, !.starts[k + 1] = @ + d])
